@@ -617,14 +617,20 @@ func (e *reflEngine) contract(u *Unit, method string, before map[string]Val) {
 				return "(= " + res.T + " " + e.presentTerm(c.entry, f, before) + ")"
 			}, "Has(fd) == field is populated (numeric != 0, float bits != 0, len != 0, message != nil, oneof member selected)")
 		case "Clear":
-			perRet(f, "effect", func(r *RetState) string {
-				after := c.loadField(r.St, e.x, f.goName)
-				if f.f.Oneof != nil {
-					b, a := before[f.goName].(IfaceV), after.(IfaceV)
-					return fmt.Sprintf("(ite (= %s %d) (= %s 0) %s)", b.Tag, c.typeTag(f.f.Wrapper), a.Tag, sameTerm(b, a))
-				}
-				return e.unsetTerm(after)
-			}, "Clear(fd) unsets the field; clearing a oneof member that is not the selected one changes nothing")
+			if f.f.Oneof != nil {
+				perRet(f, "clears the selected member", func(r *RetState) string {
+					b, a := before[f.goName].(IfaceV), c.loadField(r.St, e.x, f.goName).(IfaceV)
+					return implies(fmt.Sprintf("(= %s %d)", b.Tag, c.typeTag(f.f.Wrapper)), "(= "+a.Tag+" 0)")
+				}, "Clear(fd) of the selected oneof member unsets the oneof")
+				perRet(f, "keeps another selected member", func(r *RetState) string {
+					b, a := before[f.goName].(IfaceV), c.loadField(r.St, e.x, f.goName).(IfaceV)
+					return implies(not(fmt.Sprintf("(= %s %d)", b.Tag, c.typeTag(f.f.Wrapper))), sameTerm(b, a))
+				}, "Clear(fd) of a oneof member that is not the selected one changes nothing")
+			} else {
+				perRet(f, "effect", func(r *RetState) string {
+					return e.unsetTerm(c.loadField(r.St, e.x, f.goName))
+				}, "Clear(fd) unsets the field (zero value; nil for bytes, lists, maps and messages)")
+			}
 		case "Set":
 			perRet(f, "effect", func(r *RetState) string { return e.setEffect(f, r) }, "Set(fd, v) stores conv(v) into the field (a oneof member replaces its siblings)")
 		case "Get":
